@@ -8,7 +8,7 @@ class NotLoopFree(Exception):
     pass
 
 
-def returning_paths(f, inliner=None, limit=20000):
+def returning_paths(f, inliner=None, limit=20000, keep_mem=None):
     cfg = Cfg(f)
     if cfg.has_loops():
         raise NotLoopFree(f["key"])
@@ -16,7 +16,7 @@ def returning_paths(f, inliner=None, limit=20000):
     for p in cfg.acyclic_paths(limit=limit):
         if f["blocks"][p[-1]]["term"]["k"] != "return":
             continue
-        out.append(PathEval(f, p, inliner=inliner))
+        out.append(PathEval(f, p, inliner=inliner, keep_mem=keep_mem))
     return out
 
 
